@@ -440,7 +440,7 @@ struct Shape {
     arcsize: Option<usize>,
 }
 
-const SHAPES: [Shape; 3] = [
+const SHAPES: [Shape; 2] = [
     Shape {
         name: "small",
         filler: 0,
@@ -450,11 +450,6 @@ const SHAPES: [Shape; 3] = [
         name: "filled-tinycache",
         filler: 120,
         arcsize: Some(8),
-    },
-    Shape {
-        name: "filled",
-        filler: 250,
-        arcsize: None,
     },
 ];
 
@@ -873,14 +868,14 @@ pub fn run(args: Args) {
     let mut run = Run::new(
         args.clone(),
         "fault_enumeration",
-        "case = (database shape, transaction kind, API layer, fault) with fault = storage error at the k-th storage point of the write transaction for every k in 1..N (N learnt by a counting run), or drop-without-commit after b operations for every b; thorough adds chains of 2-4 consecutive failures (incl. failing the retry) on one server. Non-trivial = the fault fired inside the commit phase (after the operations dirtied the transaction), or an abandon; distinct by (shape, kind, layer, k|b)",
+        "case = (database shape, transaction kind, API layer, fault) with fault = storage error at the k-th storage point of the write transaction for every k in 1..N (N learnt by a counting run; the two transactions that re-index the whole database - schema entry creation, domain level raise - have thousands of points and are sampled: every point of the operation phase, head and tail of the commit phase and an even spread between), or drop-without-commit after b operations for every b; thorough adds chains of 2-4 consecutive failures (incl. failing the retry) on one server. Non-trivial = the fault fired inside the commit phase (after the operations dirtied the transaction), or an abandon; distinct by (shape, kind, layer, k|b)",
     );
     run.assume("storage faults are injected by the verif-hooks storage plan at IdlSqliteWriteTransaction::get_conn / before and after COMMIT; an injected error stands for any sqlite error at that statement");
     run.assume("observation = what fresh read transactions return through public read APIs (entries, RUV range, schema, effective access of a probe identity, domain info, OAuth2 client lookup and keys through the IDM layer, credential-update session table, name index) plus the raw rows of every table of the database file read by an independent read-only sqlite connection");
     run.assume("each isolated case starts from a byte copy of one pristine database; kanidm's start-up (initialise_helper) rewrites change ids of built-in entries, so the restart view compares settings and harness-made entries, while exact storage equality is judged on the raw tables of the running server's file");
     let tier = args.tier;
     let sc = Scratch::new("c04");
-    let nshapes = tier.pick(1usize, 3usize);
+    let nshapes = tier.pick(1usize, 2usize);
     let mut pristine = Vec::new();
     let mut pristine_prev = Vec::new();
     for (i, s) in SHAPES.iter().enumerate().take(nshapes) {
@@ -1002,20 +997,28 @@ pub fn run(args: Args) {
         let Some((n, n_ops, log, raw_after)) = counts.get(&(*s, *k, *l)) else {
             continue;
         };
-        let cap: u64 = tier.pick(60, 120);
+        let cap: u64 = 60;
         let ks: Vec<u64> = if *n <= cap.max(400) {
             (1..=*n).collect()
         } else {
             // very long transactions (a schema change re-indexes the whole database): every point
             // of the operations, the head and the tail of the commit, and an even spread between
-            sampled.push(format!("{}:{}:{} {} of {}", SHAPES[*s].name, k.name(), l.name(), cap, n));
             let mut v: std::collections::BTreeSet<u64> = (1..=(*n_ops + 12).min(*n)).collect();
             v.extend((*n - 50)..=*n);
             let rest = cap.saturating_sub(v.len() as u64).max(8);
             for i in 0..rest {
                 v.insert(*n_ops + 12 + (i * (*n - 62 - *n_ops)) / rest);
             }
-            v.into_iter().filter(|x| *x >= 1 && *x <= *n).collect()
+            let v: Vec<u64> = v.into_iter().filter(|x| *x >= 1 && *x <= *n).collect();
+            sampled.push(format!(
+                "{}:{}:{} {} of {}",
+                SHAPES[*s].name,
+                k.name(),
+                l.name(),
+                v.len(),
+                n
+            ));
+            v
         };
         let only_k: Option<u64> = std::env::var("FS_K").ok().and_then(|x| x.parse().ok());
         for kk in ks.into_iter().chain(only_k) {
